@@ -19,6 +19,7 @@ type C04Case struct {
 	Front    string      `json:"front"`    // api | wcnf
 	Declared int         `json:"declared"` // WCNF: declared variable count (>= highest used)
 	Top      bool        `json:"top"`      // WCNF: header carries a top weight
+	Heavy    int         `json:"heavy,omitempty"` // WCNF: hard clauses are written with weight top+Heavy on every other line (a weight above top is not defined by the format; see c04Run)
 }
 
 var c04Counts = map[string]int{"quick": 30_000, "thorough": 600_000}
@@ -36,6 +37,9 @@ func c04Gen(r *gen.Rng, tier string, idx int) interface{} {
 			c.Declared += r.Range(1, 3)
 		}
 		c.Top = len(c.M.Hard) > 0 || r.Bool()
+		if c.Top && len(c.M.Hard) > 0 && r.Chance(1, 8) {
+			c.Heavy = r.Range(1, 3)
+		}
 	} else {
 		c.Front = "api"
 		c.M = gen.RandomMaxSat(r, 9, false)
@@ -75,7 +79,7 @@ func MaxSatConstrs(m *gen.MaxSat) []maxsat.Constr {
 }
 
 // RenderWCNF writes the instance as WCNF; top is the hard weight (0: no top field, every clause soft).
-func RenderWCNF(m *gen.MaxSat, declared int, withTop bool) string {
+func RenderWCNF(m *gen.MaxSat, declared int, withTop bool, heavy ...int) string {
 	var sb strings.Builder
 	top := 0
 	if withTop {
@@ -100,7 +104,11 @@ func RenderWCNF(m *gen.MaxSat, declared int, withTop bool) string {
 	i, j := 0, 0
 	for i < len(m.Hard) || j < len(m.Soft) {
 		if i < len(m.Hard) && (j >= len(m.Soft) || (i+j)%2 == 0) {
-			line(top, m.Hard[i])
+			w := top
+			if len(heavy) > 0 && i%2 == 0 {
+				w += heavy[0]
+			}
+			line(w, m.Hard[i])
 			i++
 		} else {
 			line(m.W[j], m.Soft[j])
@@ -208,7 +216,16 @@ func c04Run(ci interface{}, rec *Rec) {
 		return
 	}
 	// WCNF
-	text := RenderWCNF(m, c.Declared, c.Top)
+	text := RenderWCNF(m, c.Declared, c.Top, c.Heavy)
+	if c.Heavy > 0 {
+		// A clause heavier than top is outside the published format. Any reasonable reading (hard, as gophersat does;
+		// a soft clause heavier than all others together; a parse error) agrees with "hard" whenever the hard part is
+		// satisfiable, so only that case is asserted, and a parse error is accepted.
+		rec.Count("wcnf_heavier_than_top", 1)
+		if !sat {
+			return
+		}
+	}
 	check := func(scen string, res solver.Result) {
 		if res.Status == solver.Unsat {
 			if sat {
@@ -262,6 +279,10 @@ func c04Run(ci interface{}, rec *Rec) {
 			return
 		}
 		if err != nil {
+			if c.Heavy > 0 {
+				rec.Count("wcnf_heavier_than_top_rejected", 1)
+				return
+			}
 			rec.Viol(scen+"/parse", "parse-error", "ParseWCNF", "ParseWCNF failed on a well-formed text: %v\n%s", err, text)
 			return
 		}
